@@ -60,3 +60,104 @@ Example tables_nonvacuous :
   Nat.leb 15 (length schema_tbl) && Nat.leb 15 (length loader_tbl) &&
   Nat.leb 100 (length (filter (fun r => negb (guard_F1 false false r)) (all_rows schema_tbl loader_tbl))) = true.
 Proof. vm_compute. reflexivity. Qed.
+
+(* ------------------------------------------------------------------ agreement of the tables is agreement on acceptance *)
+
+Lemma find_mech_some t k ty m : find_mech t k ty = Some m -> In m t /\ m_kind m = k /\ m_type m = ty.
+Proof.
+  unfold find_mech. intro H. apply find_some in H as [A B]. apply andb_true_iff in B as [B1 B2].
+  apply String.eqb_eq in B1, B2. auto.
+Qed.
+
+Lemma find_opt_some m n o : find_opt m n = Some o -> In o (m_opts m) /\ o_name o = n.
+Proof. unfold find_opt. intro H. apply find_some in H as [A B]. apply String.eqb_eq in B. auto. Qed.
+
+Lemma rows_of_type t m : In m t -> In (RType (m_kind m) (m_type m)) (rows_of t).
+Proof. intro H. unfold rows_of. apply in_flat_map. exists m. split; [assumption | left; reflexivity]. Qed.
+
+Lemma rows_of_opt t m o : In m t -> In o (m_opts m) -> In (ROpt (m_kind m) (m_type m) (o_name o)) (rows_of t).
+Proof.
+  intros H Ho. unfold rows_of. apply in_flat_map. exists m. split; [assumption|]. right. right.
+  apply in_map_iff. exists o. auto.
+Qed.
+
+Lemma subset_existsb a b v : subset a b = true -> existsb (String.eqb v) a = true -> existsb (String.eqb v) b = true.
+Proof.
+  unfold subset. rewrite forallb_forall. intros H E. apply existsb_exists in E as (x & Hx & Ex).
+  apply String.eqb_eq in Ex. subst x. apply H. assumption.
+Qed.
+
+Lemma subset_existsb_eq a b v : subset a b = true -> subset b a = true -> existsb (String.eqb v) a = existsb (String.eqb v) b.
+Proof.
+  intros H1 H2. destruct (existsb (String.eqb v) a) eqn:E.
+  - symmetry. eapply subset_existsb; eassumption.
+  - destruct (existsb (String.eqb v) b) eqn:E'; [|reflexivity].
+    rewrite (subset_existsb b a v H2 E') in E. discriminate.
+Qed.
+
+Lemma constr_eqb_value_ok c c' v : constr_eqb c c' = true -> value_ok c v = value_ok c' v.
+Proof.
+  destruct c, c'; simpl; try discriminate; try reflexivity.
+  - intro H. apply andb_true_iff in H as [H1 H2]. apply subset_existsb_eq; assumption.
+  - intro H. apply andb_true_iff in H as [H1 H2]. apply Z.eqb_eq in H1, H2. subst. reflexivity.
+  - intro H. repeat (apply andb_true_iff in H as [H ?]).
+    rewrite (subset_existsb_eq acc acc0 v), (subset_existsb_eq rej rej0 v); auto.
+Qed.
+
+Lemma forallb_ext' {A} (f g : A -> bool) l : (forall x, f x = g x) -> forallb f l = forallb g l.
+Proof. intro H. induction l as [|x r IH]; simpl; [reflexivity | rewrite H, IH; reflexivity]. Qed.
+
+(** if the tables agree row by row (no wildcard, no excused row), they predict the
+    same acceptance for every probe: every mechanism definition is accepted by
+    the schema side iff it is accepted by the loader side *)
+Theorem strict_ok_accepts s l : strict_ok s l = true -> forall p, accepts s p = accepts l p.
+Proof.
+  intros H p. unfold strict_ok in H. rewrite forallb_forall in H. unfold accepts.
+  destruct (find_mech s (p_kind p) (p_type p)) as [a|] eqn:Ea.
+  - destruct (find_mech_some _ _ _ _ Ea) as (Ia & Ka & Ta).
+    assert (R := H (RType (p_kind p) (p_type p))). unfold strict_row in R. rewrite Ea in R. cbv beta iota in R.
+    destruct (find_mech l (p_kind p) (p_type p)) as [b|] eqn:Eb.
+    2:{ assert (X : false = true); [|discriminate]. apply R. apply in_or_app. left.
+        rewrite <- Ka, <- Ta. apply rows_of_type. assumption. }
+    destruct (find_mech_some _ _ _ _ Eb) as (Ib & Kb & Tb).
+    assert (Rc : Bool.eqb (m_cfg_req a) (m_cfg_req b) = true).
+    { apply R. apply in_or_app. left. rewrite <- Ka, <- Ta. apply rows_of_type. assumption. }
+    apply Bool.eqb_prop in Rc. rewrite Rc.
+    assert (Opt : forall n,
+              match find_opt a n, find_opt b n with
+              | Some x, Some y => constr_eqb (o_constr x) (o_constr y) && req_acc (o_req x) (o_req y) = true
+              | None, None => True
+              | _, _ => False
+              end).
+    { intro n. destruct (find_opt a n) as [x|] eqn:Ex; destruct (find_opt b n) as [y|] eqn:Ey; auto.
+      - assert (Ro := H (ROpt (p_kind p) (p_type p) n)). unfold strict_row in Ro. rewrite Ea, Eb in Ro. cbv beta iota in Ro. rewrite ?Ex in Ro. cbv beta iota in Ro. rewrite ?Ey in Ro. cbv beta iota in Ro. apply Ro.
+        destruct (find_opt_some _ _ _ Ex) as (Ix & Nx). apply in_or_app. left.
+        rewrite <- Ka, <- Ta, <- Nx. apply rows_of_opt; assumption.
+      - assert (Ro := H (ROpt (p_kind p) (p_type p) n)). unfold strict_row in Ro. rewrite Ea, Eb in Ro. cbv beta iota in Ro. rewrite ?Ex in Ro. cbv beta iota in Ro. rewrite ?Ey in Ro. cbv beta iota in Ro.
+        assert (X : false = true); [|discriminate]. apply Ro.
+        destruct (find_opt_some _ _ _ Ex) as (Ix & Nx). apply in_or_app. left.
+        rewrite <- Ka, <- Ta, <- Nx. apply rows_of_opt; assumption.
+      - assert (Ro := H (ROpt (p_kind p) (p_type p) n)). unfold strict_row in Ro. rewrite Ea, Eb in Ro. cbv beta iota in Ro. rewrite ?Ex in Ro. cbv beta iota in Ro. rewrite ?Ey in Ro. cbv beta iota in Ro.
+        assert (X : false = true); [|discriminate]. apply Ro.
+        destruct (find_opt_some _ _ _ Ey) as (Iy & Ny). apply in_or_app. right.
+        rewrite <- Kb, <- Tb, <- Ny. apply rows_of_opt; assumption. }
+    f_equal; [f_equal|].
+    + apply forallb_ext'. intro n. specialize (Opt n).
+      destruct (find_opt a n) as [x|]; destruct (find_opt b n) as [y|]; try contradiction; auto.
+      apply andb_true_iff in Opt as [_ Rq]. destruct (o_req x), (o_req y); simpl in Rq; try discriminate; reflexivity.
+    + apply forallb_ext'. intros [n v]. simpl. specialize (Opt n).
+      destruct (find_opt a n) as [x|]; destruct (find_opt b n) as [y|]; try contradiction; auto.
+      apply andb_true_iff in Opt as [Cq _]. apply constr_eqb_value_ok. assumption.
+  - destruct (find_mech l (p_kind p) (p_type p)) as [b|] eqn:Eb; [|reflexivity].
+    destruct (find_mech_some _ _ _ _ Eb) as (Ib & Kb & Tb).
+    assert (R := H (RType (p_kind p) (p_type p))). unfold strict_row in R. rewrite Ea in R. cbv beta iota in R.
+    assert (X : false = true); [|discriminate]. apply R. apply in_or_app. right.
+    rewrite <- Kb, <- Tb. apply rows_of_type. assumption.
+Qed.
+
+(** for the current tables: every probe (mechanism definition with any options set or left out)
+    is accepted by the schema table iff it is accepted by the loader table — the
+    value syntax of durations (C20-F6) apart *)
+Theorem schema_loader_accept_equal :
+  forall p, accepts (erase_classes schema_tbl) p = accepts (erase_classes loader_tbl) p.
+Proof. apply strict_ok_accepts. exact tables_strict. Qed.
